@@ -14,13 +14,15 @@ COQ_CHECK = "Dom.check_case"
 COQ_CASE_TYPE = "Dom.case"
 COQ_BRANCHES = ("Dom.case_branches", "Dom.n_branches")
 SHARD = 150
-RULE = ("instances of 8 registered RegDom dataclasses (Leaf, Mid with a Leaf field, Top with Mid and Leaf fields and "
+RULE = ("instances of 8 registered RegDom (and 4 frozen IceRegDom) dataclasses (Leaf, Mid with a Leaf field, Top with Mid and Leaf fields and "
         "int/str/list/dict/Any fields, Opt with `Leaf | None` and `list[Leaf]` fields; each defined with real and with "
         "postponed string annotations); field values drawn from None/bool/int (up to 64 bits)/finite float/str (ASCII, "
         "Latin, CJK, astral)/list/dict(str keys) to depth 3; dataclass-typed fields hold an instance, None, or (10%) an "
         "ill-typed value; a separate stream puts data objects into Optional, list and Any fields; a history stream defines "
         "a fresh Outer class whose postponed annotation names a not yet defined Inner, deserialises it once (nested field "
-        "absent / null / no early call as control), then defines Inner and round-trips an Outer holding an Inner; non-trivial = a nested "
+        "absent / null / no early call as control), then defines Inner and round-trips an Outer holding an Inner; four frozen "
+        "IceRegDom classes (one holding a mutable data object) join the 8 classes; a mutation stream serialises an object, "
+        "changes a nested list / dict / non-frozen data object in place, and serialises and round-trips it again; non-trivial = a nested "
         "object, a non-ASCII string, an int beyond 2^53 or a list/dict field")
 MODELLED = ["json / cbor2 / msgpack as an abstract codec with dec (enc v) = Some v on the common domain (checked per case: the "
             "library's decode of its own encoding must equal _asdict())",
@@ -62,6 +64,42 @@ class C28Opt{S}(RegDom):
     leaves: list[C28Leaf{S}] = None
     v: Any = None
 '''
+ICE_SRC = '''
+from dataclasses import dataclass
+from typing import Any
+from hio.help.doming import IceRegDom, registerify
+from c28_plain import C28LeafA
+
+@registerify
+@dataclass(frozen=True)
+class C28IceLeaf(IceRegDom):
+    a: Any = None
+    b: Any = None
+
+@registerify
+@dataclass(frozen=True)
+class C28IceMid(IceRegDom):
+    leaf: C28LeafA = None      # a mutable data object inside a frozen one
+    v: Any = None
+
+@registerify
+@dataclass(frozen=True)
+class C28IceTop(IceRegDom):
+    mid: C28IceMid = None
+    leaf: C28IceLeaf = None
+    w: Any = None
+    n: int = None
+    s: str = None
+    l: list = None
+    m: dict = None
+
+@registerify
+@dataclass(frozen=True)
+class C28IceOpt(IceRegDom):
+    leaf: C28IceLeaf | None = None
+    leaves: list[C28IceLeaf] = None
+    v: Any = None
+'''
 # class number -> (name stem, [(field, dataclass number or None)])
 SCHEMA = []
 for off in (0, 4):
@@ -69,6 +107,13 @@ for off in (0, 4):
                ("Mid", [("leaf", off + 0), ("v", None)]),
                ("Top", [("mid", off + 1), ("leaf", off + 0), ("w", None), ("n", None), ("s", None), ("l", None), ("m", None)]),
                ("Opt", [("leaf", None), ("leaves", None), ("v", None)])]
+# 8..11: frozen IceRegDom classes; IceMid holds the mutable class 0, IceTop holds IceMid (9) and IceLeaf (8)
+SCHEMA += [("IceLeaf", [("a", None), ("b", None)]),
+           ("IceMid", [("leaf", 0), ("v", None)]),
+           ("IceTop", [("mid", 9), ("leaf", 8), ("w", None), ("n", None), ("s", None), ("l", None), ("m", None)]),
+           ("IceOpt", [("leaf", None), ("leaves", None), ("v", None)])]
+NCLS = len(SCHEMA)
+FROZEN = {8, 9, 10, 11}
 _classes = None
 
 
@@ -82,6 +127,10 @@ def classes():
             src = ("from __future__ import annotations\n" if future else "") + SRC.replace("{S}", S)
             exec(compile(src, name, "exec"), m.__dict__)
             out += [getattr(m, f"C28{stem}{S}") for stem in ("Leaf", "Mid", "Top", "Opt")]
+        m = types.ModuleType("c28_ice")
+        sys.modules["c28_ice"] = m
+        exec(compile(ICE_SRC, "c28_ice", "exec"), m.__dict__)
+        out += [getattr(m, f"C28Ice{stem}") for stem in ("Leaf", "Mid", "Top", "Opt")]
         _classes = out
     return _classes
 
@@ -128,7 +177,7 @@ def history_classes(early):
         first = [bool(type(y) is outer and y.leaf is None and y.v == 1) for y in first]
     exec(compile(HIST_INNER.replace("{N}", N), name, "exec"), m.__dict__)
     inner = getattr(m, "C28HInner" + N)
-    cs = [None] * 8
+    cs = [None] * NCLS
     cs[4], cs[5] = inner, outer
     return cs, first
 
@@ -249,7 +298,7 @@ def rand_obj(rng, c, illtyped=0.1, misplace=0.0):
         if ft is not None:
             if r < illtyped:
                 x = rng.choice([["l", []], ["s", ""], ["d", []], ["d", [["a", ["i", 1]]]], ["d", [["zz", ["i", 1]]]],
-                                ["i", 3], ["l", [["s", "a"]]], ["s", "a"], rand_obj(rng, (ft + 1) % 8, 0, 0)])
+                                ["i", 3], ["l", [["s", "a"]]], ["s", "a"], rand_obj(rng, (ft + 1) % NCLS, 0, 0)])
             elif r < 0.3:
                 x = ["n"]
             else:
@@ -294,6 +343,25 @@ def directed():
             {"obj": obj(off + M, leaf=["l", [["s", "a"]]], v=["s", "a"])},
             {"obj": obj(off + M, leaf=obj(off + M, leaf=leaf), v=["i", 1])},                     # wrong class in the field
         ]
+    # frozen classes, and in-place changes after a first serialisation
+    ileaf = obj(8, a=["l", [["i", 1]]], b=["d", [["k", ["i", 1]]]])
+    mleaf = obj(0, a=["i", 5], b=["l", []])
+    imid = obj(9, leaf=mleaf, v=["l", [["s", "a"]]])
+    itop = obj(10, mid=imid, leaf=ileaf, w=["d", []], n=["i", 7], s=["s", "é"], l=["l", [["i", 1]]], m=["d", [["x", ["i", 1]]]])
+    out += [{"obj": ileaf}, {"obj": imid}, {"obj": itop}, {"obj": obj(11, leaf=ileaf, leaves=["l", [ileaf]], v=["n"])}]
+    out += [
+        {"obj": ileaf, "mut": [[["f", "a"]], "append", ["i", 2]]},
+        {"obj": ileaf, "mut": [[["f", "b"]], "setkey", "new", ["s", "v"]]},
+        {"obj": imid, "mut": [[["f", "leaf"]], "attr", "a", ["i", 6]]},                    # mutable object inside a frozen one
+        {"obj": imid, "mut": [[["f", "leaf"], ["f", "b"]], "append", ["i", 9]]},
+        {"obj": imid, "mut": [[["f", "v"]], "append", ["n"]]},
+        {"obj": itop, "mut": [[["f", "mid"], ["f", "leaf"]], "attr", "b", ["s", "changed"]]},
+        {"obj": itop, "mut": [[["f", "leaf"], ["f", "a"]], "append", ["f", (2.5).hex()]]},
+        {"obj": itop, "mut": [[["f", "m"]], "setkey", "x", ["i", 2]]},
+        {"obj": itop, "mut": [[["f", "l"]], "append", ["d", [["k", ["n"]]]]]},
+        {"obj": obj(1, leaf=mleaf, v=["l", []]), "mut": [[], "attr", "v", ["i", 3]]},
+        {"obj": obj(5, leaf=obj(4, a=["l", []]), v=["n"]), "mut": [[["f", "leaf"], ["f", "a"]], "append", ["i", 1]]},
+    ]
     leaf = obj(4, a=["i", 5], b=["s", "é"])
     for early in ("absent", "null", "control"):
         out.append({"obj": obj(5, leaf=leaf, v=["i", 2]), "early": early})
@@ -311,12 +379,84 @@ def history_cases(rng, k):
     return out
 
 
+# Mutation histories: construct -> serialise with every codec -> change a nested mutable value IN PLACE (append to a
+# list, set a dict key, assign an attribute of a non-frozen data object, possibly inside a frozen one) -> serialise
+# again and round-trip.  "mut" = [path, op, arg...]: path steps are ["f", field] / ["i", index] / ["k", key].
+def _targets(t, path, frozen_top):
+    """places of a tree that can be changed in place: (path, kind)"""
+    out = []
+    if t[0] == "o":
+        if t[1] not in FROZEN:
+            out.append((path, "attr"))
+        for f, x in t[2]:
+            out += _targets(x, path + [["f", f]], False)
+    elif t[0] == "l":
+        out.append((path, "list"))
+        for i, x in enumerate(t[1]):
+            out += _targets(x, path + [["i", i]], False)
+    elif t[0] == "d":
+        out.append((path, "dict"))
+        for k, x in t[1]:
+            out += _targets(x, path + [["k", k]], False)
+    return out
+
+
+def _node(t, path):
+    for kind, key in path:
+        if kind == "f":
+            t = dict((f, x) for f, x in t[2])[key]
+        elif kind == "i":
+            t = t[1][key]
+        else:
+            t = dict((k, x) for k, x in t[1])[key]
+    return t
+
+
+def rand_mutation(rng, t):
+    ts = _targets(t, [], True)
+    if not ts:
+        return None
+    path, kind = rng.choice(ts)
+    v = rand_plain(rng, 1)
+    if kind == "list":
+        return [path, "append", v]
+    if kind == "dict":
+        return [path, "setkey", rng.choice(["zz", "a", "new"]), v]
+    node = _node(t, path)
+    plain = [f for f, ft in SCHEMA[node[1]][1] if ft is None]
+    return [path, "attr", rng.choice(plain), v]
+
+
+def apply_mutation(x, mut):
+    path, op = mut[0], mut[1]
+    for kind, key in path:
+        x = getattr(x, key) if kind == "f" else x[key]
+    if op == "append":
+        x.append(build(mut[2]))
+    elif op == "setkey":
+        x[mut[2]] = build(mut[3])
+    else:
+        setattr(x, mut[2], build(mut[3]))
+
+
+def mutation_cases(rng, k):
+    out = []
+    while len(out) < k:
+        c = rng.choice([8, 9, 10, 10, 11, 9, 10, rng.randrange(NCLS)])
+        o = rand_obj(rng, c, 0.0, 0.15 if c % 4 == 3 else 0.0)
+        m = rand_mutation(rng, o)
+        if m is not None:
+            out.append({"obj": o, "mut": m})
+    return out
+
+
 def generate(rng, tier):
     n = 500 if tier == "quick" else 4500
-    out = [{"obj": rand_obj(rng, rng.randrange(8))} for _ in range(n)]
-    out += [{"obj": rand_obj(rng, rng.randrange(8), 0.0, 0.0)} for _ in range(n // 2)]
-    out += [{"obj": rand_obj(rng, rng.randrange(8), 0.0, 0.35)} for _ in range(n // 4)]
+    out = [{"obj": rand_obj(rng, rng.randrange(NCLS))} for _ in range(n)]
+    out += [{"obj": rand_obj(rng, rng.randrange(NCLS), 0.0, 0.0)} for _ in range(n // 2)]
+    out += [{"obj": rand_obj(rng, rng.randrange(NCLS), 0.0, 0.35)} for _ in range(n // 4)]
     out += history_cases(rng, 60 if tier == "quick" else 600)
+    out += mutation_cases(rng, 240 if tier == "quick" else 2400)
     return out
 
 
@@ -335,6 +475,17 @@ def _loads(kind, raw):
     return msgpack.loads(raw)
 
 
+def _asdict_tree(t):
+    """what dictify must give for the object tree t (data objects become dicts, recursively)"""
+    if t[0] == "o":
+        return ["d", [[f, _asdict_tree(x)] for f, x in t[2]]]
+    if t[0] == "l":
+        return ["l", [_asdict_tree(x) for x in t[1]]]
+    if t[0] == "d":
+        return ["d", [[k, _asdict_tree(x)] for k, x in t[1]]]
+    return t
+
+
 def run_impl(case):
     cs, first = (None, None)
     if case.get("early"):
@@ -342,7 +493,14 @@ def run_impl(case):
         cs, first = history_classes(case["early"])
     x = build(case["obj"], cs)
     cls = type(x)
-    obs = {"asdict": tree_of(x._asdict(), cs), "wire": [], "back": [], "equal": [], "first": first}
+    pre = None
+    if case.get("mut"):
+        # first serialisation of the object as constructed, then the in-place change
+        pre = {"asdict": tree_of(x._asdict()), "wire": [tree_of(_loads(kind, getattr(x, enc)())) for enc, _, kind in CODECS],
+               "expect": _asdict_tree(tree_of(x))}
+        apply_mutation(x, case["mut"])
+    obs = {"asdict": tree_of(x._asdict(), cs), "wire": [], "back": [], "equal": [], "first": first, "pre": pre,
+           "now": tree_of(x, cs), "expect": _asdict_tree(tree_of(x, cs))}
     for enc, dec, kind in CODECS:
         raw = getattr(x, enc)()
         obs["wire"].append(tree_of(_loads(kind, raw), cs))
@@ -359,7 +517,15 @@ def run_impl(case):
 def oracle(case, obs):
     if obs.get("first") and not all(obs["first"]):
         return f"early deserialisation of the outer class (before its nested class existed) went wrong: {obs['first']}"
-    if not in_domain(case["obj"]):
+    for phase, o in (("before the in-place change", obs.get("pre")), ("of the current object", obs)):
+        if o is None:
+            continue
+        if o["asdict"] != o["expect"]:
+            return f"_asdict() {phase} is not dictify of the object: {json.dumps(o['asdict'])[:200]} vs {json.dumps(o['expect'])[:200]}"
+        for (enc, dec, kind), w in zip(CODECS, o["wire"]):
+            if w != o["expect"]:
+                return f"{enc}() {phase} does not encode the object ({kind}): {json.dumps(w)[:200]} vs {json.dumps(o['expect'])[:200]}"
+    if not in_domain(obs["now"]):
         return None      # a dataclass-typed field holding something that is neither None nor such an instance
     for (enc, dec, kind), eq, back in zip(CODECS, obs["equal"], obs["back"]):
         if not eq:
@@ -369,7 +535,9 @@ def oracle(case, obs):
 
 
 def classify(case, obs, why):
-    return "D31b" if misplaced(case["obj"]) else None
+    if "is not dictify of the object" in why or "does not encode the object" in why:
+        return None
+    return "D31b" if misplaced(obs["now"]) else None
 
 
 def nontrivial(case, obs):
@@ -389,7 +557,7 @@ def nontrivial(case, obs):
 
 
 def shrink(case):
-    if case.get("early"):
+    if case.get("early") or case.get("mut"):
         return
     t = case["obj"]
     for i, (f, x) in enumerate(t[2]):
@@ -443,10 +611,10 @@ COQ_HEADER = ["Definition SCH : Dom.schema := %s." % coq_list(
 def to_coq(case, obs):
     return ("{| Dom.k_schema := SCH; Dom.k_class := %s; Dom.k_obj := %s; Dom.k_asdict := %s; Dom.k_wire := %s; "
             "Dom.k_back := %s; Dom.k_typed := %s |}" % (
-                coq_nat(case["obj"][1]), _tree(case["obj"], "D"), _tree(obs["asdict"], "V"),
+                coq_nat(obs["now"][1]), _tree(obs["now"], "D"), _tree(obs["asdict"], "V"),
                 coq_list([_tree(w, "V") for w in obs["wire"]], "Dom.value"),
                 coq_list([coq_res(b, lambda t: _tree(t, "D")) for b in obs["back"]], "res Dom.dv"),
-                coq_bool(in_domain(case["obj"]) and not misplaced(case["obj"]))))
+                coq_bool(in_domain(obs["now"]) and not misplaced(obs["now"]))))
 
 
 def distribution(cases, obs):
@@ -457,6 +625,9 @@ def distribution(cases, obs):
         d["in domain"] += in_domain(t)
         d["ill-typed dataclass field"] += not in_domain(t)
         d["object in Optional/list/Any field"] += misplaced(t)
-        d["postponed-annotation class"] += t[1] >= 4
+        d["postponed-annotation class"] += 4 <= t[1] < 8
+        d["frozen class"] = d.get("frozen class", 0) + (t[1] in FROZEN)
+        d["mutation history"] = d.get("mutation history", 0) + bool(c.get("mut"))
+        d["early-call history"] = d.get("early-call history", 0) + bool(c.get("early"))
         d["nested depth >= 2"] += any(x[0] == "o" and any(y[0] == "o" for _, y in x[2]) for _, x in t[2])
     return d
